@@ -73,7 +73,7 @@ class SpecGen:
             if y < 0.5:
                 return ("cmp", r.choice(["=", "<>", "<", "<=", ">", ">="]), self.num(srcs, max(d - 1, 0)), self.num(srcs, max(d - 1, 0)))
             if y < 0.62:
-                return ("in", self.num(srcs, 0), [("lit", r.choice([0, 1, 2, 3, 5])) for _ in range(r.randint(1, 3))], r.random() < 0.3)
+                return ("in", self.num(srcs, 0), [("lit", r.choice([0, 1, 2, 3, 5])) for _ in range(r.choice([0, 1, 1, 2, 2, 3]))], r.random() < 0.3)
             if y < 0.74:
                 return ("between", self.num(srcs, 0), ("lit", r.choice([0, 1])), ("lit", r.choice([2, 3, 5])))
             if y < 0.86:
